@@ -410,7 +410,13 @@ func (w *world) monitors(op, res string) {
 				staked = v.TokensFromShares(del.Shares).TruncateInt()
 			}
 			if staked.GT(o.DelegateAmount) || (!w.tainted && !staked.Equal(o.DelegateAmount)) {
-				w.violate(fmt.Sprintf("stake accounting: online oracle records delegate_amount different from what is delegated on its behalf (re-approved after governance removal=%v)", w.removed[id]))
+				if w.removed[id] {
+					// the history class of the known finding (text matched by its signature)
+					w.violate(fmt.Sprintf("stake accounting: online oracle records delegate_amount different from what is delegated on its behalf (re-approved after governance removal=%v)", w.removed[id]))
+				} else {
+					// bin/check groups descriptions with their parenthesised parts removed: keep this class textually apart
+					w.violate(fmt.Sprintf("stake accounting, oracle never removed by governance: recorded delegate_amount %s differs from the %s delegated on its behalf", o.DelegateAmount, staked))
+				}
 			}
 		}
 	}
